@@ -96,6 +96,15 @@ def main():
         out = outdir / "destriped.bin"
         tracedir = Path(os.environ["IBL_NEUROPIXEL_VERIF_TRACE"])
         nruns = 2 if sc.get("append") else 1
+        if sc.get("stale"):
+            # leftovers of an earlier, longer run under every name this call writes (a non-append call starts from scratch)
+            g = np.random.default_rng(sc["seed"] + 7)
+            g.integers(-300, 300, ((sc["ns"] + sc.get("ns2add", 0) + 777) * 385), dtype=np.int16).tofile(out)
+            g.random(99 * 384, dtype=np.float32).tofile(outdir / "ap_rms.bin")
+            g.random(99, dtype=np.float32).tofile(outdir / "ap_time.bin")
+            np.save(outdir / "_iblqc_ephysSaturation.samples.npy", np.ones(sc["ns"] + 501, dtype=bool))
+            np.save(outdir / "_iblqc_ephysTimeRmsAP.rms.npy", np.ones((99, 384), dtype=np.float32))
+            np.save(outdir / "_iblqc_ephysTimeRmsAP.timestamps.npy", np.ones(99, dtype=np.float32))
         for k in range(nruns):
             for f in tracedir.glob("*.ndjson"):
                 f.unlink()
